@@ -101,6 +101,26 @@ def run_config(ps, M, shim, native_root=None, enc=None, diag=True):
                 fh.write(data)
             return native_root + "/src/" + name
     bad = []
+    # the process's working directory holds files named like the digests of the contents about to be stored (a staging
+    # area that keeps files under their checksum): they are not the store's objects
+    for op in script:
+        if op[0] in ("obj", "objck"):
+            name = hashlib.new(D1ALGO[algo], op[2]).hexdigest()
+            if F is not None:
+                F.b.create("/" + name, b"not the object")
+            else:
+                with open(os.path.join(native_root, name), "wb") as fh:
+                    fh.write(b"not the object")
+    cwd0 = os.getcwd()
+    if F is None:
+        os.chdir(native_root)
+    try:
+        return _run_config_body(ps, M, shim, native_root, enc, depth, width, algo, ns, script, F, root, put, bad)
+    finally:
+        os.chdir(cwd0)
+
+
+def _run_config_body(ps, M, shim, native_root, enc, depth, width, algo, ns, script, F, root, put, bad):
     src0 = put("o0", script[0][2])
     script = [tuple(src0 if x == "<PATH-OF-SOURCE-0>" else x for x in op) for op in script]
     d_arg, w_arg = depth, width
